@@ -92,10 +92,10 @@ package log
 // error records: one structured log entry per error, under the scan's label, carrying exactly that error; the
 // de-duplicating logger forwards errors unchanged
 //@ func (*logger).Error
-//@   props C13 C08 C14
+//@   props C13 C08 C14 C16
 //@   observe zap.Error, Error
 //@   entry row entry: [call zap.Error(err) as (f) ; call Error(l.zapl, l.label, bind_fs)] when len(fs) == 1 && fs[0] == f -> exit
 //@ func (*UniqueLogger).Error
-//@   props C13 C14
+//@   props C13 C14 C08 C16
 //@   observe Error
 //@   entry row forward: [call Error(l.logger, err)] -> exit
